@@ -991,3 +991,55 @@ def gen_override_jobs(rng, n):
         jobs.append({'src': override_program(rng), 'shape': shape, 'cat': cat, 'pat': spec, 'placement': 'override',
                      'tmpl': tm, 'set': st})
     return jobs
+
+
+# ---------------------------------------------------------------------------------------------------------------------
+# identifier lists: slots at EVERY index of every list of identifiers, mixed with fixed entries before / after / between
+
+_IDL_SRC = 'f(a, b)\nr = g(c, d)\nif t:\n    h(e, k)  # tail\n'
+_IDL_PAT = 'MCall(func=M(f=MName), args=[M(x=MName), M(y=MName)])'
+_IDL_SPAT = 'MExpr(value=MCall(func=M(f=MName), args=[M(x=MName), M(y=MName)]))'
+_MC_SRC = ('match ev:\n    case Click(pos=(x, y)):\n        pass\n    case Key(code=27) | Key(code=13):\n        pass\n'
+           '    case Scroll(dx=0, dy=d):\n        pass\n    case Wrapped(inner=Click(pos=p)):\n        pass\n')
+_MC_PAT = 'MMatchClass(cls=M(c=...), patterns=[], kwd_attrs=[M(k=...)], kwd_patterns=[M(p=...)])'
+
+
+def _mix(rng, fixed, slots):
+    """fixed entries and slot entries in a random order (every relative position comes up)"""
+    items = rng.sample(fixed, rng.randint(0, len(fixed))) + slots
+    rng.shuffle(items)
+    return items
+
+
+def gen_identlist_jobs(rng, n):
+    jobs = []
+    for _ in range(n):
+        k = rng.randrange(8)
+        st = {'nested': False, 'on': rng.choice(['enter', 'enter', 'leave']), 'count': 0, 'loop': False}
+        job = {'src': _IDL_SRC, 'shape': 'multi', 'cat': 'expr', 'pat': _IDL_PAT, 'placement': 'ident-list', 'set': st}
+        if k == 0:      # MatchClass keyword attribute names
+            items = _mix(rng, ["kind='ui'", 'a=1', 'b=2'], ['__FST_k=__FST_p'])
+            job.update(src=_MC_SRC, pat=_MC_PAT, cat='pattern', tmpl_mode='pattern', tmpl=f'__FST_c({", ".join(items)})')
+            st['nested'] = rng.random() < 0.5
+        elif k == 1:    # keyword names of a call
+            items = _mix(rng, ['a=1', 'b=2', 'c=3'], rng.sample(['__FST_x=__FST_y', '__FST_y=0', '__FST_f=1'], rng.randint(1, 3)))
+            job.update(tmpl=f'call({", ".join(items)})')
+        elif k == 2:    # global / nonlocal names
+            items = _mix(rng, ['p', 'q', 'r'], rng.sample(['__FST_x', '__FST_y', '__FST_f'], rng.randint(1, 3)))
+            job.update(pat=_IDL_SPAT, cat='stmt', tmpl=f'{rng.choice(["global", "nonlocal"])} {", ".join(items)}')
+        elif k == 3:    # import aliases
+            items = _mix(rng, ['m1 as p', 'm2', 'm3 as q'], rng.sample(['n1 as __FST_x', '__FST_y', '__FST_f as __FST_x' if rng.random() < 0.5 else 'n2 as __FST_f'], rng.randint(1, 2)))
+            job.update(pat=_IDL_SPAT, cat='stmt', tmpl=rng.choice(['import ', 'from mod import ']) + ', '.join(items))
+        elif k == 4:    # lambda / def arguments
+            items = _mix(rng, ['p', 'q'], rng.sample(['__FST_x', '__FST_y'], rng.randint(1, 2)))
+            job.update(tmpl=f'lambda {", ".join(items)}: 0')
+        elif k == 5:
+            items = _mix(rng, ['p', 'q'], rng.sample(['__FST_x', '__FST_y'], rng.randint(1, 2)))
+            job.update(pat=_IDL_SPAT, cat='stmt', tmpl=f'def __FST_f({", ".join(items)}, *, z, __FST_{"y" if "__FST_y" not in items else "f"}=1):\n    pass')
+        elif k == 6:    # class keywords
+            items = _mix(rng, ['a=1', 'b=2'], rng.sample(['__FST_x=__FST_y', '__FST_y=0'], rng.randint(1, 2)))
+            job.update(pat=_IDL_SPAT, cat='stmt', tmpl=f'class __FST_f(B, {", ".join(items)}):\n    pass')
+        else:           # attribute chain
+            job.update(tmpl=rng.choice(['o.__FST_x.__FST_y', '__FST_f.p.__FST_x', 'o.__FST_y(__FST_x=__FST_f)']))
+        jobs.append(job)
+    return jobs
